@@ -62,7 +62,11 @@ let reason_tok = function
 
 let show_result (e : G.event) (r : G.result) : string =
   match r with
-  | G.RAcc -> "a" | G.RRef -> "r" | G.RNone -> "-" | G.RBad -> "x" | G.RPanic -> "panic"
+  | G.RNone ->
+    (match e with
+     | G.EPullSucc (s, i) | G.EPullFail (s, i) | G.EPullDone (s, i) -> att_name s i
+     | _ -> "-")
+  | G.RAcc -> "a" | G.RRef -> "r" | G.RBad -> "x" | G.RPanic -> "panic"
   | G.RMedia l ->
     let names = Stdlib.List.sort compare (Stdlib.List.map conn_name l) in
     "m" ^ String.concat "+" names
@@ -116,6 +120,14 @@ let run_case cfg ops =
       match parse_event op with
       | None -> "unknown-op"
       | Some e ->
+        (* attempt index 0 = the latest attempt of that stream *)
+        let latest s i = if int_of_n i <> 0 then i else
+            (match G.lookup s !st.G.st_cnt with Some c -> c | None -> i) in
+        let e = match e with
+          | G.EPullSucc (s, i) -> G.EPullSucc (s, latest s i)
+          | G.EPullFail (s, i) -> G.EPullFail (s, latest s i)
+          | G.EPullDone (s, i) -> G.EPullDone (s, latest s i)
+          | _ -> e in
         let ((st1, r), ns) = G.step fx cf !st e in
         st := st1;
         let ev = if ns = [] then "-" else String.concat "+" (Stdlib.List.map show_notif ns) in
